@@ -311,6 +311,9 @@ def oracle(lines, trace):
                     eof_at = t
         conn = [(t, f) for (t, tag, f) in ev if tag == 1 and f[0] == c["hc"]]
         connected = bool(conn) and conn[0][1][1] == 0
+        if not connected and (tstop is None or tstop > c.get("tclose", 0)) and c.get("tclose", 0) - c["tconn"] >= 2500000000:
+            fails.append(("c18/not-accepted", "client %d: its connect to the proxy %s" % (s, "never completed" if not conn else "completed with %d" % conn[0][1][1])))
+            continue
         sent = c16.sent_stream(c, ev)
         reqs = split_requests(sent)
         served = (tstop is None or tstop > c.get("tclose", 0)) and connected
